@@ -48,8 +48,23 @@ def run(ctx):
                 "stream": "S-cancel-handlers", "world": worlds_[i], "model": mv, "implementation": exp,
                 "what": "a TASK_CANCEL handler did not remove exactly the pending placement event of the cancelled task "
                         "(per handler: time of the removed TASK_PLACEMENT event or null)"})
+        ctx.rules.append("S-decisions: every decision of a policy as Simulator.__create_events_from_task_placement(_skip) processes it "
+                         "(about 6000 per quick run): scheduled with a new event / scheduled and the pending event re-timed / plan "
+                         "retracted (event removed, task unscheduled) / nothing / TaskGraph.cancel - the outcome computed by "
+                         "Model/SimHandlers.v decision_outcome from the machine-with-queue state at that moment vs the observed one")
+        dm, dfed = simcommon.decisions_stream(ctx, worlds_, runs_)
+        names = {0: "outside", 1: "scheduled (new event)", 2: "scheduled (pending event re-timed)", 3: "plan retracted", 4: "nothing",
+                 5: "TaskGraph.cancel"}
+        for (i, j, mo, io) in dm[:3]:
+            if j is None:
+                continue        # the machine rejected the log: reported by the S-sim / S-simq ties
+            ctx.violation("decision_world%d" % i, {
+                "stream": "S-decisions", "world": worlds_[i], "decision_ordinal": j, "model": mo, "implementation": io,
+                "what": "decision no. %d of the run: the simulator did `%s`, the decision table of "
+                        "__create_events_from_task_placement applied to the state at that moment gives `%s`"
+                        % (j, names.get(io[0], "?") if io else "?", names.get(mo[0], "?") if mo else "?")})
     except core.ModelEvalError as e:
-        ctx.broken.append({"kind": "correspondence", "name": "S-cancel-handlers (handler model does not evaluate)", "detail": str(e)[-500:]})
+        ctx.broken.append({"kind": "correspondence", "name": "S-cancel-handlers / S-decisions (handler model does not evaluate)", "detail": str(e)[-500:]})
     replay_known(ctx)
     if os.path.exists(os.path.join(os.path.dirname(__file__), "c06_closure.py")):
         part = importlib.import_module("props.c06_closure")
